@@ -12,6 +12,8 @@ fn twin_state() -> (RangeDecoder<RangeDecoderBuffer>, [u8; DB], usize, u32, u32)
     let code: u32 = kani::any();
     // C01-A2: every decode_bit leaves range >= 2^16; decode_direct_bits is only entered after one
     kani::assume(range >= (1 << 16));
+    // NOTE: no `code < range` assumption: hostile input can reach code == range (a direct bit with an odd range and
+    // code == range - 1 yields it), so the twins are compared on every code value.
     (RangeDecoder { inner: RangeDecoderBuffer { buf: bytes.to_vec(), pos }, range, code }, bytes, pos, range, code)
 }
 
@@ -22,6 +24,11 @@ fn direct_bits_twin(kmax: u32, x86: bool) {
     let count: u32 = kani::any();
     kani::assume(count >= 1 && count <= kmax);
     let r_portable = d.decode_direct_bits(count); // this build has no `optimization`: the portable loop
+    // the optimization build only enters the asm when the dispatch condition (lowered from the source) holds;
+    // otherwise both builds run the same portable loop and there is nothing to compare
+    let uses_asm = if x86 { model_dispatch_x86_64(pos, DB, count) } else { model_dispatch_aarch64(pos, DB, count) };
+    kani::cover!(!uses_asm, "state in which the optimization build falls back to the portable loop");
+    kani::assume(uses_asm);
     let (mut mr, mut mc, mut mp, mut oob) = (range, code, pos, false);
     let r_model = if x86 {
         model_direct_bits_x86_64(&mut mr, &mut mc, &mut mp, &bytes, count, &mut oob)
@@ -34,22 +41,21 @@ fn direct_bits_twin(kmax: u32, x86: bool) {
     let fin_portable = d.is_finished();
     let fin_model = mp == DB && mc == 0;
     assert!(fin_portable == fin_model, "C14-B: is_finished() differs between the asm and the portable path after an overrun");
-    kani::cover!(d.inner.pos > DB, "portable path ran past the end of the chunk buffer");
     kani::cover!(d.inner.pos > pos && d.inner.pos <= DB, "normalisation inside the buffer");
     kani::cover!(r_portable != 0, "non-zero result");
 }
 
-//@ {"name":"c14b_direct_bits_twin_x86_k3","props":["C14","C15"],"obligation":"C14-B","timeout":1500,"mem_gb":9,"functions":["range_dec::RangeDecoder::decode_direct_bits (portable)","range_dec::RangeDecoder::decode_direct_bits_x86_64 (asm!, lowered by lower.py)","range_dec::RangeDecoder::is_finished"],"bounds":"8-byte chunk buffer with arbitrary content; pos 0..=8; range any value >= 2^16; code any u32; count 1..=3 (symbolic); unwind 18 (model: up to 5 basic blocks per bit)","assumes":["range >= 2^16 on entry (established for every reachable state by c01a2_rc_step_invariants)","the asm model is the lowering of the current source text, validated natively against the real asm on each run"]}
+//@ {"name":"c14b_direct_bits_twin_x86_k3","props":["C14","C15"],"obligation":"C14-B","timeout":1500,"mem_gb":9,"functions":["range_dec::RangeDecoder::decode_direct_bits (portable)","range_dec::RangeDecoder::decode_direct_bits_x86_64 (asm!, lowered by lower.py)","range_dec::RangeDecoder::is_finished"],"bounds":"8-byte chunk buffer with arbitrary content; pos 0..=8; range any value >= 2^16; code any u32; count 1..=3 (symbolic); unwind 18 (model: up to 5 basic blocks per bit)","assumes":["range >= 2^16 on entry (inductive: c01a2_rc_step_invariants); code unconstrained","the asm model is the lowering of the current source text, validated natively against the real asm on each run"]}
 #[kani::proof]
 #[kani::unwind(18)]
 fn c14b_direct_bits_twin_x86_k3() { direct_bits_twin(3, true); }
 
-//@ {"name":"c14b_direct_bits_twin_aarch64_k3","props":["C14","C15"],"obligation":"C14-B","timeout":1500,"mem_gb":9,"functions":["range_dec::RangeDecoder::decode_direct_bits (portable)","range_dec::RangeDecoder::decode_direct_bits_aarch64 (asm!, lowered by lower.py)"],"bounds":"as the x86 twin; count 1..=3; unwind 18","assumes":["range >= 2^16 on entry","aarch64 model cannot be validated against real aarch64 asm on this x86-64 host (same translator, validated on the x86 block)"]}
+//@ {"name":"c14b_direct_bits_twin_aarch64_k3","props":["C14","C15"],"obligation":"C14-B","timeout":1500,"mem_gb":9,"functions":["range_dec::RangeDecoder::decode_direct_bits (portable)","range_dec::RangeDecoder::decode_direct_bits_aarch64 (asm!, lowered by lower.py)"],"bounds":"as the x86 twin; count 1..=3; unwind 18","assumes":["range >= 2^16 on entry; code unconstrained","aarch64 model cannot be validated against real aarch64 asm on this x86-64 host (same translator, validated on the x86 block)"]}
 #[kani::proof]
 #[kani::unwind(18)]
 fn c14b_direct_bits_twin_aarch64_k3() { direct_bits_twin(3, false); }
 
-//@ {"name":"c14b_direct_bits_twin_x86_k8","props":["C14"],"tier":"thorough","obligation":"C14-B","timeout":5400,"mem_gb":13,"functions":["range_dec::RangeDecoder::decode_direct_bits (portable)","range_dec::RangeDecoder::decode_direct_bits_x86_64 (asm!, lowered)"],"bounds":"count 1..=8; otherwise as k3; unwind 44","assumes":["range >= 2^16 on entry"]}
+//@ {"name":"c14b_direct_bits_twin_x86_k8","props":["C14"],"tier":"thorough","obligation":"C14-B","timeout":5400,"mem_gb":13,"functions":["range_dec::RangeDecoder::decode_direct_bits (portable)","range_dec::RangeDecoder::decode_direct_bits_x86_64 (asm!, lowered)"],"bounds":"count 1..=8; otherwise as k3; unwind 44","assumes":["range >= 2^16 on entry; code unconstrained"]}
 #[kani::proof]
 #[kani::unwind(44)]
 fn c14b_direct_bits_twin_x86_k8() { direct_bits_twin(8, true); }
